@@ -4,9 +4,9 @@ CONSTANTS
  P1 = 1
  P2 = 0
  Dev = {}
+INVARIANT Shape
 INVARIANT Final
 INVARIANT RoundTrip
 INVARIANT OrigKept
 INVARIANT Laws
-PROPERTY Grows
 CHECK_DEADLOCK FALSE
